@@ -522,4 +522,189 @@ Section Refine.
 
   Theorem ancestor_iff_active i : i < n -> (anc_of (to_graph Q) roots i <-> activeg i = true).
   Proof. intros Hi. apply (needed_original n i); lia. Qed.
+
+  (** * Part D: the refinement theorems *)
+  Lemma phys_sound v : In v (pnodes phys) -> In v (pnodes Q) /\ anc_of (to_graph Q) roots v.
+  Proof. rewrite physical_fst. apply prune_nodes_sound. Qed.
+
+  Lemma phys_complete v :
+    In v (pnodes Q) -> anc_of (to_graph Q) roots v ->
+    is_lit Q v = false \/ redirect n es output = Some v -> In v (pnodes phys).
+  Proof. rewrite physical_fst. apply prune_nodes_complete. Qed.
+
+  Lemma original_in_Q i : i < n -> In i (pnodes Q).
+  Proof.
+    intros Hi. apply (transform_nodes i es P n R0_tctx). left. cbn. apply in_seq. lia.
+  Qed.
+
+  Lemma original_kind i nd : nth_error p i = Some nd -> is_lit Q i = negb (is_call nd).
+  Proof.
+    intros Hi. unfold is_lit. rewrite (transform_kind_old P n es i R0_tctx).
+    - cbn. rewrite Hi. now destruct (is_call nd).
+    - cbn. apply in_seq. assert (i < n) by (apply nth_error_Some; congruence). lia.
+  Qed.
+
+  (** (R2), soundness: an original node that survives in the physical plan computes according to L1 *)
+  Theorem R2_kept_sound i : i < n -> In i (pnodes phys) -> activeg i = true.
+  Proof. intros Hi Hk. apply (ancestor_iff_active i Hi). now apply phys_sound. Qed.
+
+  (** (R2), completeness: a node that computes according to L1 survives, unless it is an unregistered
+      Literal other than the output (which [_prune_literal_if_trivial] may have elided) *)
+  Theorem R2_kept_complete i nd :
+    nth_error p i = Some nd -> activeg i = true ->
+    is_call nd = true \/ output = Some i \/ reg i <> None -> In i (pnodes phys).
+  Proof.
+    intros Hi Ha Hc. assert (Hlt : i < n) by (apply nth_error_Some; congruence).
+    destruct (reg i) as [re|] eqn:Er.
+    - destruct (ids_of_registered i re Er) as [ce Hin].
+      unfold active_g in Ha. rewrite (need_registered reg st output p i nd re Hi Er) in Ha. cbn in Ha.
+      apply andb_true_iff in Ha. destruct Ha as [Hst Hso]. apply negb_true_iff in Hso.
+      destruct (C14_write_call_args_in_physical P n es output _ ce R0_tctx Hin Hst Hso) as [_ [_ [_ [H _]]]].
+      exact H.
+    - apply phys_complete; [now apply original_in_Q | now apply ancestor_iff_active |].
+      destruct Hc as [Hc | [Hc | Hc]]; [| | congruence].
+      + left. now rewrite (original_kind i nd Hi), Hc.
+      + right. pose proof redirect_cases as Hr. rewrite Hc in Hr. rewrite Er in Hr. now rewrite Hc.
+  Qed.
+
+  (** (R2) for Calls, all three registry cases at once: kept iff active *)
+  Theorem R2_calls i nd :
+    nth_error p i = Some nd -> is_call nd = true -> (In i (pnodes phys) <-> activeg i = true).
+  Proof.
+    intros Hi Hc. assert (Hlt : i < n) by (apply nth_error_Some; congruence). split.
+    - now apply R2_kept_sound.
+    - intros Ha. apply (R2_kept_complete i nd Hi Ha). now left.
+  Qed.
+
+  (** (R2) no value store: kept iff pulled (Calls and the output; soundness for every node) *)
+  Theorem R2_unregistered i nd :
+    nth_error p i = Some nd -> reg i = None ->
+    (In i (pnodes phys) -> pullsg i = true) /\
+    (is_call nd = true \/ output = Some i -> (In i (pnodes phys) <-> pullsg i = true)).
+  Proof.
+    intros Hi Hr. assert (Hlt : i < n) by (apply nth_error_Some; congruence).
+    rewrite (need_unregistered_eq reg st output p i Hr). split; [now apply R2_kept_sound|].
+    intros Hc. split; [now apply R2_kept_sound|]. intros Ha. apply (R2_kept_complete i nd Hi Ha).
+    destruct Hc; auto.
+  Qed.
+
+  (** (R2) stored node (Call or Literal): kept iff stale *)
+  Theorem R2_stored i re :
+    reg i = Some re -> is_src re = false -> (In i (pnodes phys) <-> st i = true).
+  Proof.
+    intros Hr Hs. pose proof (dom _ _ Hr) as Hlt.
+    destruct (nth_error p i) as [nd|] eqn:Ei; [|apply nth_error_None in Ei; lia].
+    assert (Ha : activeg i = st i).
+    { unfold active_g. rewrite (need_registered reg st output p i nd re Ei Hr). cbn. rewrite Hs. apply andb_true_r. }
+    rewrite <- Ha. split; [now apply R2_kept_sound|]. intros H. apply (R2_kept_complete i nd Ei H).
+    right. right. congruence.
+  Qed.
+
+  (** (R2) the [source] placeholder is never in the physical plan *)
+  Theorem R2_source i re : reg i = Some re -> is_src re = true -> ~ In i (pnodes phys).
+  Proof.
+    intros Hr Hs Hk. pose proof (dom _ _ Hr) as Hlt.
+    destruct (nth_error p i) as [nd|] eqn:Ei; [|apply nth_error_None in Ei; lia].
+    apply (R2_kept_sound i Hlt) in Hk. unfold active_g in Hk.
+    rewrite (need_registered reg st output p i nd re Ei Hr) in Hk. cbn in Hk. rewrite Hs in Hk.
+    rewrite andb_false_r in Hk. discriminate.
+  Qed.
+
+  (** (R1) the write call of a stale stored node is in the physical plan; a write call exists only for
+      stale entries ([write_id ce] of an up-to-date entry is the id of the NEXT entry's store literal,
+      see [ex_write_id_overlap]), hence the guard [estale e = true] on the left *)
+  Theorem R1_writes e ce :
+    In (e, ce) ids -> esource e = false ->
+    ((estale e = true /\ In (write_id ce) (pnodes phys)) <-> st (enode e) = true).
+  Proof.
+    intros Hin Hso. destruct (ids_inv e ce Hin) as [re [_ [_ [Hst _]]]]. rewrite <- Hst. split.
+    - tauto.
+    - intros H. split; [assumption|]. now apply (C09_write_survives P n es output e ce R0_tctx Hin).
+  Qed.
+
+  Definition written_g (i : nat) : bool :=
+    match reg i with Some e => st i && negb (is_src e) | None => false end.
+
+  Theorem R1_written e ce :
+    In (e, ce) ids -> (estale e = true /\ esource e = false <-> written_g (enode e) = true).
+  Proof.
+    intros Hin. destruct (ids_inv e ce Hin) as [re [Hr [Hso [Hst _]]]]. unfold written_g.
+    rewrite Hr, andb_true_iff, negb_true_iff, <- Hst, <- Hso. tauto.
+  Qed.
+
+  Lemma read_in_Q e ce : In (e, ce) ids -> In (read_id ce) (pnodes Q) /\ is_lit Q (read_id ce) = false.
+  Proof.
+    intros Hin. split.
+    - apply (transform_nodes _ es P n R0_tctx). right. exists e, ce. auto.
+    - unfold is_lit. destruct (transform_kinds es P n e ce R0_tctx Hin) as [_ [H _]]. cbn in H. now rewrite H.
+  Qed.
+
+  (** (R3), soundness without any extra hypothesis: a surviving read node is the output, or feeds an
+      active consumer through an ARGUMENT edge, or is an argument of a stale source (whose Barrier waits
+      for it) *)
+  Theorem R3_reads_sound e ce :
+    In (e, ce) ids -> In (read_id ce) (pnodes phys) ->
+    output = Some (enode e) \/
+    (exists c nd, nth_error p c = Some nd /\ In (enode e) (args nd) /\ activeg c = true) \/
+    (exists c nd rc, nth_error p c = Some nd /\ In (enode e) (args nd) /\
+                     reg c = Some rc /\ is_src rc = true /\ st c = true).
+  Proof.
+    intros Hin Hk. apply phys_sound in Hk. destruct Hk as [_ Ha]. apply anc_of_step in Ha.
+    destruct Ha as [Hr | [w [He Hw]]]; [left; now apply (root_read e ce Hin)|]. right.
+    apply Q_edge in He. destruct He as [x [Hx [Hs Hd]]].
+    destruct (add_all_out_read x es P n e ce R0_tctx Hin Hx Hs)
+      as [[Hk Hp] | [e' [c' [Hin' [Hst' [Hso' [_ [k [Hk Hp]]]]]]]]].
+    - left. destruct (P_edge_lt _ Hp) as [H1 H2]. cbn in H1, H2. rewrite Hd in *.
+      destruct (nth_error p w) as [ndw|] eqn:Ew; [|apply nth_error_None in Ew; lia].
+      exists w, ndw. split; [exact Ew|]. split; [exact (P_nonDep_arg _ _ _ ndw Hp Hk Ew)|].
+      now apply ancestor_iff_active.
+    - right. destruct (P_edge_lt _ Hp) as [H1 H2]. cbn in H1, H2.
+      destruct (nth_error p (enode e')) as [ndw|] eqn:Ew; [|apply nth_error_None in Ew; lia].
+      destruct (ids_inv _ _ Hin') as [re' [Hr' [Hso'' [Hst'' _]]]].
+      exists (enode e'), ndw, re'. split; [exact Ew|]. split; [exact (P_nonDep_arg _ _ _ ndw Hp Hk Ew)|].
+      split; [assumption|]. split; congruence.
+  Qed.
+
+  Theorem R3_reads_complete e ce :
+    In (e, ce) ids ->
+    output = Some (enode e) \/
+    (exists c nd, nth_error p c = Some nd /\ In (enode e) (args nd) /\ activeg c = true) ->
+    In (read_id ce) (pnodes phys).
+  Proof.
+    intros Hin H. destruct (read_in_Q e ce Hin) as [HQ Hl]. apply phys_complete; [assumption | | now left].
+    destruct H as [Ho | [c [nd [Hc [Ha Hact]]]]].
+    - left. now apply (root_read e ce Hin).
+    - destruct (P_arg_edge _ c nd Hc Ha) as [j Hx].
+      assert (Hk : KPos j <> KDep) by discriminate.
+      destruct (C09_consumers_on_read P n es e ce c (KPos j) R0_tctx Hin Hx Hk) as [Hy _].
+      apply (anc_of_pred _ _ _ c); [apply pedge_iff; now exists (KPos j)|].
+      apply ancestor_iff_active; [apply nth_error_Some; congruence | assumption].
+  Qed.
+
+  (** what the real API guarantees ([registry.source] creates a call without arguments; dependencies can
+      only be added as plain Dependency edges) *)
+  Definition src_no_args : Prop :=
+    forall i re nd, reg i = Some re -> is_src re = true -> nth_error p i = Some nd -> args nd = [].
+
+  (** (R3) reads: the closed form of L1 *)
+  Theorem R3_reads e ce :
+    src_no_args -> In (e, ce) ids ->
+    (In (read_id ce) (pnodes phys) <->
+     output = Some (enode e) \/
+     exists c nd, nth_error p c = Some nd /\ In (enode e) (args nd) /\ activeg c = true).
+  Proof.
+    intros Hsrc Hin. split; [|now apply R3_reads_complete].
+    intros Hk. destruct (R3_reads_sound e ce Hin Hk) as [H | [H | [c [nd [rc [Hc [Ha [Hr [Hs _]]]]]]]]]; auto.
+    rewrite (Hsrc c rc nd Hr Hs Hc) in Ha. contradiction.
+  Qed.
+
+  Theorem R3_reads_table e ce :
+    src_no_args -> In (e, ce) ids ->
+    (In (read_id ce) (pnodes phys) <-> is_read_g reg st output p (enode e) = true).
+  Proof.
+    intros Hsrc Hin. rewrite (R3_reads e ce Hsrc Hin).
+    destruct (ids_inv e ce Hin) as [re [Hr [_ [_ [Hlt _]]]]].
+    destruct (nth_error p (enode e)) as [nd|] eqn:Ei; [|apply nth_error_None in Ei; lia].
+    now rewrite (read_unfold reg st output p wf (enode e) nd re Ei Hr).
+  Qed.
 End Refine.
